@@ -1165,6 +1165,50 @@ def env_contract_subbyte(ck) -> None:
         ck.count(256)
 
 
+def tables_runtime_check(ck) -> None:
+    """The generated tables describe what the imported module does (translator validation): bitwidth, itemsize,
+    numpy(), from_numpy, short_name, from_short_name, is_* of every member, against tables()."""
+    import ml_dtypes
+    import numpy as np
+    import onnx_ir as ir
+    t = tables()
+    byval = {v: n for n, v in t["members"]}
+    if {m.name: int(m) for m in ir.DataType} != dict(t["members"]):
+        ck.broken("translation:DataType-members", "enum members at run time differ from the source table")
+    bwm, short = dict(t["bitwidth"]), dict(t["short"])
+    npk = {v: k for k, v in t["np"]}
+    for m in ir.DataType:
+        v = int(m)
+        ck.count()
+        try:
+            got = m.bitwidth
+        except TypeError:
+            got = None
+        if got != bwm.get(v):
+            ck.broken("translation:bitwidth", f"{m.name}: run time {got}, table {bwm.get(v)}")
+        if got is not None and m.itemsize * 8 != got:
+            ck.broken("translation:itemsize", f"{m.name}: itemsize {m.itemsize} * 8 != bitwidth {got}")
+        if m.short_name() != short.get(v) or ir.DataType.from_short_name(m.short_name()) != m:
+            ck.broken("translation:short_name", f"{m.name}: {m.short_name()} / table {short.get(v)}")
+        if v in npk:
+            key = npk[v]
+            want = np.dtype(getattr(ml_dtypes, key.split(".", 1)[1])) if key.startswith("ml_dtypes.") else np.dtype(key)
+            if m.numpy() != want or ir.DataType.from_numpy(m.numpy()) != m:
+                ck.broken("translation:numpy", f"{m.name}: numpy() {m.numpy()} table {key}")
+        for fn, key in (("is_floating_point", "floating"), ("is_integer", "integer"), ("is_signed", "signed")):
+            if getattr(m, fn)() != (v in t[key]):
+                ck.broken("translation:" + fn, m.name)
+    # nbytes = ceil(size * bw / 8) also for sizes far beyond anything materialisable (float arithmetic in the code)
+    for name in NUMERIC():
+        for size in (0, 1, 3, 7, (1 << 31) + 1, (1 << 40) + 3, (1 << 50) - 1):
+            lt = ir.LazyTensor(lambda: None, dtype=ir.DataType[name], shape=ir.Shape([size]))
+            ck.count()
+            if lt.nbytes != ref_nbytes(name, size) or lt.size != size:
+                ck.violation({"kind": "oracle-nbytes", "dtype": name, "size": size, "nbytes": lt.nbytes,
+                              "required": ref_nbytes(name, size)})
+                return
+
+
 def run(ck) -> None:
     import logging
     import shutil
@@ -1184,7 +1228,12 @@ def run(ck) -> None:
                            "size 0, or a malformed input")
     generate(ck)
     ck.prove()
+    # the comparison functions used by the case files are not in the closure of Property.v
+    rc, out = common.make(["theories/C04/Tie.vo"], timeout=600)
+    if rc != 0:
+        ck.broken("build:C04/Tie.v", out[-2000:])
     env_contract_subbyte(ck)
+    tables_runtime_check(ck)
     wd = os.path.join(ck.scratch, "w")
     os.makedirs(wd, exist_ok=True)
 
